@@ -137,6 +137,15 @@ int main(int argc, char **argv){
         state.setState(s.s0);
         for(size_t r=0; r<s.runs.size() / 2; r++){
             int b = s.runs[2*r], c = s.runs[2*r+1];
+            if (b == -1){
+                // state edit between runs: the chains are set to the initial states rotated by c (inside the domain);
+                // the cached probability values belong to the old positions and must not be used again
+                std::vector<double> ns((size_t) s.n * s.d);
+                for(int i=0; i<s.n; i++) for(int j=0; j<s.d; j++) ns[(size_t) i * s.d + j] = s.s0[(size_t) ((i + c) % s.n) * s.d + j];
+                state.setState(ns);
+                fprintf(out, "{\"e\":\"SetState\",\"st\":%s}\n", strips(state.getChainState(), s.d).c_str());
+                continue;
+            }
             fprintf(out, "{\"e\":\"Start\",\"b\":%d,\"c\":%d}\n", b, c);
             const char *threw = nullptr; std::string what;
             try{
